@@ -262,9 +262,41 @@ class CallMixin:
         if name == 'super':
             selfv = st.env.get('self') or st.env.get('cls')
             return [('val', st, Val('super', None, cls=self.cur_fn.cls, obj=selfv))]
+        if name == 'sorted':
+            return self.sorted_(args, kwargs, st)
         if name == 'repr':
             raise Unsupported('repr()')
         raise Unsupported('builtin ' + name)
+
+    def sorted_(self, args, kwargs, st):
+        """sorted() of a constant container with a key computable on constants: evaluated concretely.
+        A total key makes the result independent of the container's iteration order; ties on a set are rejected."""
+        v = args[0]
+        if v.ty != 'const' or isinstance(v.a['py'], dict):
+            raise Unsupported('sorted() of ' + v.ty)
+        items = list(v.a['py'])
+        key = kwargs.get('key')
+        rev = kwargs.get('reverse')
+        revb = False
+        if rev is not None:
+            rz = simplify(ops.truth(rev))
+            if not (is_true(rz) or is_false(rz)):
+                raise Unsupported('symbolic reverse=')
+            revb = is_true(rz)
+        keys = []
+        for x in items:
+            if key is None:
+                keys.append(x)
+                continue
+            outs = self.call_value(key, [lift(x)], {}, st.fork(), None)
+            if len(outs) != 1 or outs[0][0] != 'val':
+                raise Unsupported('sort key forks')
+            keys.append(to_py(outs[0][2]))
+        from .loader import PySet
+        if isinstance(v.a['py'], PySet) and len(set(keys)) != len(keys):
+            raise Unsupported('sorted() of a set with tied keys: order depends on the hash seed')
+        order = sorted(range(len(items)), key=lambda i: keys[i], reverse=revb)
+        return [('val', st, VList([lift(items[i]) for i in order]))]
 
     def hasattr_(self, v, name):
         nm = _pystr(name)
@@ -409,6 +441,11 @@ class CallMixin:
             if name == 'extend' and args[0].ty in ('list', 'tuple'):
                 store(VList(items + args[0].a['items']))
                 return [('val', st, VNone)]
+        if recv.ty == 'dict':
+            if name == 'keys':
+                return [('val', st, VTuple([k for k, _ in recv.a['items']]))]
+            if name == 'values':
+                return [('val', st, VTuple([v for _, v in recv.a['items']]))]
         for h in self.reg.attr_hooks:
             r = h(self, 'listmethod', (recv, name, args, target, store), st)
             if r is not None:
@@ -437,6 +474,28 @@ class CallMixin:
             from .loader import PySet
             return [('val', st, VConst(PySet(set(py) | set(other))))]
         raise Unsupported('method %s of a constant %s' % (name, type(py).__name__))
+
+
+def to_py(v):
+    """concrete python value of a constant Val"""
+    from .exprs import _const_str
+    if v.ty == 'int':
+        z = simplify(v.z)
+        if z3.is_int_value(z):
+            return z.as_long()
+    if v.ty == 'str':
+        r = _const_str(simplify(v.z))
+        if r is not None:
+            return r
+    if v.ty in ('tuple', 'list'):
+        return tuple(to_py(x) for x in v.a['items'])
+    if v.ty == 'const':
+        return v.a['py']
+    if v.ty == 'bool':
+        z = simplify(v.z)
+        if is_true(z) or is_false(z):
+            return is_true(z)
+    raise Unsupported('not a constant: ' + v.ty)
 
 
 def _pystr(v):
